@@ -157,7 +157,14 @@ func ProcessSingleFilter(colName string, colValue interface{}, originalColValue 
 			if colName == "" {
 				colName = "*"
 			}
+			// `*!=404` is the negation of `*=404` (no column holds 404), like `*!=word` for text, and not "some
+			// column differs from 404": search for the equality and negate the result.
+			negateMatch := colName == "*" && opr == NotEquals
+			if negateMatch {
+				opr = Equals
+			}
 			criteria := CreateTermFilterCriteria(colName, colValue, opr, qid, caseConversion)
+			criteria.ExpressionFilter.NegateMatch = negateMatch
 			andFilterCondition = append(andFilterCondition, criteria)
 
 		} else {
